@@ -91,6 +91,13 @@ CLAIMED.update({
             "DESIGN.md §4 C10"),
 })
 
+CLAIMED.update({
+    "C11": ("table agreement between writer and parser constants (replacer pairs, regexp literal, Sprintf formats extracted from SSA; sample names assembled from the writer's constants are parsed by the reader's regexp) + provenance of map keys + guard dominance in the journal router",
+            "Structural necessary conditions: the journal-name encoder and the journal regexp agree, the uniquifier/chunk formats are what the regexp accepts, map keys reach id text only through url.PathEscape, Fork.fqname/path/id come only from the encoded id, stale attempts are ignored, a notification is applied only to the object the router resolved, fork lookup is bounds-checked and compares whole names.",
+            "Not decided: injectivity of nested mixed array/map fork numbering (arithmetic on run-time lengths), collisions between -u<uniq> directories, that forks[i] carries id fork<i>.",
+            "DESIGN.md §4 C11"),
+})
+
 NOT_APPLICABLE = {
     "C01": "Equality of delivered argument values with the denotation of binding expressions quantifies over run-time JSON values and fork matching for all programs; no clause is a fact about the shape of the code, so any static rule would be a proxy, not a necessary condition.",
     "C13": "Materialisation of files under outs/ and the rewritten _outs are file-system effects and hand-assembled JSON values; the only structural candidate (bracket pairing of the JSON writers) does not imply validity and is exercised by the existing golden tests.",
